@@ -302,6 +302,8 @@ func C19(rep *ev.Reporter, tier string) {
 	times := []tv{
 		{base, "base-utc"}, {base.In(zone), "base-fixedzone"}, {base.In(time.Local), "base-local"}, {base.Add(time.Nanosecond), "base+1ns"}, {base.Add(-time.Nanosecond), "base-1ns"},
 		{base.Add(time.Nanosecond).In(zone), "base+1ns-fixedzone"}, {time.Time{}, "zero"}, {time.Unix(0, 0), "epoch-local"}, {time.Unix(0, 0).UTC(), "epoch-utc"},
+		// instants outside the range a 64-bit count of nanoseconds since 1970 can hold (1677..2262)
+		{time.Date(9999, 12, 31, 23, 59, 59, 0, time.UTC), "year-9999"}, {time.Date(2300, 1, 1, 0, 0, 0, 0, time.UTC), "year-2300"}, {time.Date(1492, 10, 12, 0, 0, 0, 0, time.UTC), "year-1492"}, {time.Date(2262, 4, 11, 23, 47, 16, 854775807, time.UTC), "last-int64-nanosecond"}, {time.Date(2262, 4, 11, 23, 47, 16, 854775808, time.UTC), "one-past-int64-nanoseconds"},
 		{now, "now-monotonic"}, {now.Round(0), "now-stripped"}, {now.UTC(), "now-utc"}, {now.In(zone), "now-fixedzone"},
 	}
 	for _, a := range times {
@@ -407,7 +409,7 @@ func C19(rep *ev.Reporter, tier string) {
 	}
 	sort.Strings(ex)
 	rep.Sample(map[string]interface{}{"number_operands_every_37th": ex})
-	rep.Coverage["rule"] = "complete table: every ordered pair of number operands (12 Go kinds x every boundary value exactly representable in the kind and inside the int64 range: 0, +-1, +-2, width limits and their neighbours, +-(2^53+-1), Max/MinInt64, 2^24(+1), fractions, 1e-9, +-MaxFloat32) x wrapper pairs (T, *T, **T, interface{}), every pair of 9 strings, 2 bools, 13 time values (same instant in UTC / fixed zone / Local / with monotonic reading / stripped, +-1ns, zero, epoch) - all six operators each way on pkg.Evaluate*; states = operand pairs, transitions = operator applications. Laws: trichotomy, <= is < or ==, >= is > or ==, != is not ==, mirror under swap, and the outcome equals the comparison of the exact mathematical values (big.Rat) whenever both are exactly representable in float64 or both are integers. Plus the same laws through GRL conditions over typed fact fields (every kind pair x 3 value pairs x 6 operators, FetchMatchingRules). Non-trivial: operands of different kinds/wrappers, strings, times."
+	rep.Coverage["rule"] = "complete table: every ordered pair of number operands (12 Go kinds x every boundary value exactly representable in the kind and inside the int64 range: 0, +-1, +-2, width limits and their neighbours, +-(2^53+-1), Max/MinInt64, 2^24(+1), fractions, 1e-9, +-MaxFloat32) x wrapper pairs (T, *T, **T, interface{}), every pair of 9 strings, 2 bools, 18 time values (same instant in UTC / fixed zone / Local / with monotonic reading / stripped, +-1ns, zero, epoch, years 1492 / 2300 / 9999 and the two instants around the end of the int64-nanosecond range) - all six operators each way on pkg.Evaluate*; states = operand pairs, transitions = operator applications. Laws: trichotomy, <= is < or ==, >= is > or ==, != is not ==, mirror under swap, and the outcome equals the comparison of the exact mathematical values (big.Rat) whenever both are exactly representable in float64 or both are integers. Plus the same laws through GRL conditions over typed fact fields (every kind pair x 3 value pairs x 6 operators, FetchMatchingRules). Non-trivial: operands of different kinds/wrappers, strings, times."
 	rep.Assumptions = append(rep.Assumptions, "uint64 values above MaxInt64 are outside the quantifier; NaN operands are judged through GRL conditions only (all operators but != false)", "for int x float pairs not exactly representable in float64 only the consistency laws are judged (the documented int->float promotion is lossy there)")
 }
 
